@@ -90,6 +90,9 @@ var entries = []entry{
 	{"state.Store.DeleteSession", "pkg/state/store.go", "Store", "DeleteSession"},
 	{"state.Store.CreateNATBinding", "pkg/state/store.go", "Store", "CreateNATBinding"},
 	{"state.Store.DeleteNATBinding", "pkg/state/store.go", "Store", "DeleteNATBinding"},
+	// C08: accounting manager
+	{"radius.AccountingManager.StartSession", "pkg/radius/accounting.go", "AccountingManager", "StartSession"},
+	{"radius.AccountingManager.StopSession", "pkg/radius/accounting.go", "AccountingManager", "StopSession"},
 	// C13: HA session store and push
 	{"ha.InMemorySessionStore.PutSession", "pkg/ha/store.go", "InMemorySessionStore", "PutSession"},
 	{"ha.InMemorySessionStore.DeleteSession", "pkg/ha/store.go", "InMemorySessionStore", "DeleteSession"},
